@@ -59,7 +59,14 @@ type opSig struct {
 	at   token.Pos
 }
 
+type lockSig struct {
+	A     string   `json:"a"` // the access: r/w + canonical field path
+	Locks []string `json:"l"`
+	at    token.Pos
+}
+
 type funcSig struct {
+	Locks []lockSig `json:"locks"`
 	Conds []condSig `json:"conds"`
 	Calls []string  `json:"calls"`
 	Args  []argSig  `json:"args"`
@@ -237,7 +244,11 @@ func (w *World) effectsIn(fn *ssa.Function, region func(*ssa.BasicBlock) bool, o
 			switch x := in.(type) {
 			case ssa.CallInstruction:
 				c := x.Common()
-				if _, isB := c.Value.(*ssa.Builtin); isB {
+				if b, isB := c.Value.(*ssa.Builtin); isB {
+					// removing an entry / closing a channel cannot be inlined away either
+					if (b.Name() == "delete" || b.Name() == "close") && len(c.Args) > 0 {
+						set["builtin."+b.Name()+" "+w.sigString(c.Args[0], 3)] = true
+					}
 					continue
 				}
 				name := calleeName(w, c)
@@ -426,6 +437,61 @@ func (w *World) computeSig(root *ssa.Function) funcSig {
 			}
 		})
 	}
+	// shared-state accesses and the locks held at them
+	for _, fn := range familyOf(root).Funcs {
+		hasLock := false
+		eachInstr(fn, func(in ssa.Instruction) {
+			if a, k := w.lockFactsGen(in); len(a)+len(k) > 0 {
+				hasLock = true
+			}
+		})
+		if !hasLock && syncCallbackSite(fn) == nil {
+			continue
+		}
+		eachInstr(fn, func(in ssa.Instruction) {
+			var target ssa.Value
+			mode := "r "
+			switch x := in.(type) {
+			case *ssa.MapUpdate:
+				target, mode = x.Map, "w "
+			case *ssa.Lookup:
+				if _, isMap := x.X.Type().Underlying().(*types.Map); isMap {
+					target = x.X
+				}
+			case *ssa.Store:
+				if fa, ok := x.Addr.(*ssa.FieldAddr); ok {
+					target, mode = fa, "w "
+				}
+			case *ssa.Call:
+				if b, ok := x.Call.Value.(*ssa.Builtin); ok && b.Name() == "delete" && len(x.Call.Args) == 2 {
+					target, mode = x.Call.Args[0], "w "
+				}
+			}
+			if target == nil {
+				return
+			}
+			ts := w.sigString(target, 2)
+			// only state reached through the receiver / a parameter's fields (shared), not locals
+			if !strings.HasPrefix(ts, "$") || !strings.Contains(ts, ".") {
+				return
+			}
+			held := w.locksHeldAt(in)
+			var ls []string
+			for f := range held {
+				p := f[2:]
+				if i := strings.Index(p, "["); i >= 0 {
+					p = p[:i]
+				}
+				p = strings.TrimSuffix(strings.TrimSuffix(p, ".RWMutex"), ".Mutex")
+				if j := strings.LastIndex(p, "."); j >= 0 {
+					p = p[j+1:]
+				}
+				ls = append(ls, f[:1]+":"+p)
+			}
+			sort.Strings(ls)
+			sig.Locks = append(sig.Locks, lockSig{A: mode + ts, Locks: ls, at: in.Pos()})
+		})
+	}
 	sig.Calls = sortedKeys(calls)
 	return sig
 }
@@ -482,6 +548,8 @@ func sigRules(w *World, r *Report, prop string) {
 		return
 	}
 	r.Rule(prop+"-B5", "operands keep their identity", "at a call of a repository function / interface method, a field store or a map update found again, exactly one operand differs from the reference and the new operand is another value the reference function already uses elsewhere: the wrong one of two same-typed values is used", 0)
+	r.Rule(prop+"-B6", "accesses keep their locks", "an access to shared state (a field of the receiver / of a parameter, or a map held in one) found again is made with at least the locks held in the reference tree", 0)
+	nLock := 0
 	nOp := 0
 	nCond, nCall, nArg, nCmp := 0, 0, 0, 0
 	for _, fn := range anchoredFuncs(w, prop) {
@@ -534,6 +602,38 @@ func sigRules(w *World, r *Report, prop string) {
 				// same operands, different relation; sides unchanged => the boundary moved
 				if eqSet(rs[i].T, cs[i].T) && eqSet(rs[i].F, cs[i].F) && !eqSet(rs[i].T, rs[i].F) {
 					r.Fail(prop+"-B2", fmt.Sprintf("%s | comparison of %s", host, clip(k, 90)), cs[i].at, fmt.Sprintf("the reference tree tests `%s`, this tree tests `%s` with the same consequences on both sides: the boundary case (equality) changed sides", rs[i].C, cs[i].C))
+				}
+			}
+		}
+		// ---- B6
+		{
+			grp := func(ls []lockSig) map[string][]lockSig {
+				m := map[string][]lockSig{}
+				for _, l := range ls {
+					m[l.A] = append(m[l.A], l)
+				}
+				return m
+			}
+			rg, cg := grp(ref.Locks), grp(cur.Locks)
+			for _, k := range sortedKeys(rg) {
+				rs, cs := rg[k], cg[k]
+				if len(rs) != len(cs) {
+					continue
+				}
+				for i := range rs {
+					nLock++
+					have := map[string]bool{}
+					for _, l := range cs[i].Locks {
+						have[l] = true
+						if l[0] == 'W' {
+							have["R"+l[1:]] = true
+						}
+					}
+					for _, l := range rs[i].Locks {
+						if !have[l] {
+							r.Fail(prop+"-B6", fmt.Sprintf("%s | %s #%d", host, clip(k, 80), i+1), cs[i].at, fmt.Sprintf("the reference tree makes this access with lock %s held; in this tree the lock is not held on every path reaching it (taken later, released earlier, or the access moved out of the critical section)", l))
+						}
+					}
 				}
 			}
 		}
@@ -630,6 +730,7 @@ func sigRules(w *World, r *Report, prop string) {
 			}
 		}
 	}
+	r.OK(prop+"-B6", "census", 0, fmt.Sprintf("%d shared-state accesses matched with the reference", nLock))
 	r.OK(prop+"-B5", "census", 0, fmt.Sprintf("%d operations matched with the reference", nOp))
 	r.OK(prop+"-B2", "census", 0, fmt.Sprintf("%d comparisons matched with the reference", nCmp))
 	r.OK(prop+"-B3", "census", 0, fmt.Sprintf("%d reference effects looked for", nCall))
